@@ -58,6 +58,7 @@ def interpret(m, f, sep_given, more_flags=None):
     for n in pre:
         if isinstance(n, ast.Assign) and isinstance(n.targets[0], ast.Name) and isinstance(const_val(n.value, None), int):
             env[n.targets[0].id] = Sym(c=const_val(n.value))
+    table_scans = []
     lists = {}          # list name -> [tuple of forms] appended per iteration
     direct = []         # slices appended directly inside the loop
     used_find = []
@@ -117,6 +118,21 @@ def interpret(m, f, sep_given, more_flags=None):
                     raise Undecided('append of %s' % norm(a))
             elif isinstance(st, ast.Expr) and isinstance(st.value, ast.Constant):
                 continue
+            elif isinstance(st, ast.While) and not st.orelse and len(st.body) == 1 and isinstance(st.body[0], ast.AugAssign) and \
+                    isinstance(st.body[0].op, ast.Add) and const_val(st.body[0].value, None) == 1 and isinstance(st.body[0].target, ast.Name):
+                # `while c < len(text) and text[c] in TABLE: c += 1`: the gap is skipped by scanning for the characters of a table
+                cvar = st.body[0].target.id
+                conj = list(st.test.values) if isinstance(st.test, ast.BoolOp) and isinstance(st.test.op, ast.And) else [st.test]
+                tab = None
+                for c_ in conj:
+                    if isinstance(c_, ast.Compare) and len(c_.ops) == 1 and isinstance(c_.ops[0], ast.In) and norm(c_.left) == '%s[%s]' % (text, cvar):
+                        tab = c_.comparators[0]
+                    elif isinstance(c_, ast.Call) and isinstance(c_.func, ast.Attribute) and c_.func.attr == 'isspace' and norm(c_.func.value) == '%s[%s]' % (text, cvar):
+                        tab = 'isspace'
+                if tab is None or cvar not in env:
+                    raise Undecided('statement %s' % norm(st)[:60])
+                table_scans.append((st, tab, k))
+                env[cvar] = env[cvar] + Sym({'G%d' % k: 1})
             else:
                 raise Undecided('statement %s' % norm(st)[:60])
     # the cursor is symbolic C at loop entry if it was 0: keep the constant (offsets are absolute), i.e. C = that constant
@@ -157,4 +173,4 @@ def interpret(m, f, sep_given, more_flags=None):
             break
     if len(slices) != 2:
         raise Undecided('%d piece slices interpreted' % len(slices))
-    return {'slices': slices, 'used_find': used_find, 'loop': loop, 'piece': piece, 'sep': sep}
+    return {'slices': slices, 'used_find': used_find, 'loop': loop, 'piece': piece, 'sep': sep, 'table_scans': table_scans}
